@@ -23,6 +23,17 @@ use text::*;
 use transport::*;
 
 static PANICKED: AtomicBool = AtomicBool::new(false);
+/// consecutive server cases that hit the watchdog; after a few, the watchdog is shortened so that a change which
+/// makes every connection hang cannot stall a whole check for hours
+static HUNG_STREAK: AtomicUsize = AtomicUsize::new(0);
+
+fn watchdog() -> Duration {
+    if HUNG_STREAK.load(Ordering::SeqCst) >= 3 {
+        Duration::from_millis(300)
+    } else {
+        Duration::from_secs(20)
+    }
+}
 /// read chunks actually delivered in the last case, if some scripted chunk had to be split
 static LAST_CLIP: Mutex<Option<String>> = Mutex::new(None);
 
@@ -388,7 +399,7 @@ fn run_srv(ctx: &mut SrvCtx, tokens: &[&str]) -> String {
         let driver = async {
             let _c = tokio::net::TcpStream::connect(addr).await.unwrap();
             // wait until the connection task has ended or is starved of input
-            let r = tokio::time::timeout(Duration::from_secs(20), async {
+            let r = tokio::time::timeout(watchdog(), async {
                 loop {
                     notify.notified().await;
                     let s = shared.lock().unwrap();
@@ -399,6 +410,11 @@ fn run_srv(ctx: &mut SrvCtx, tokens: &[&str]) -> String {
                 }
             })
             .await;
+            if r.is_err() {
+                HUNG_STREAK.fetch_add(1, Ordering::SeqCst);
+            } else {
+                HUNG_STREAK.store(0, Ordering::SeqCst);
+            }
             r.is_err()
         };
         let timed_out = match *proto {
@@ -490,12 +506,13 @@ fn run_accept(tokens: &[&str]) -> String {
                         let _ = t.send(());
                     }
                     // serve_until should now return; wait (bounded) for the select to finish
-                    tokio::time::sleep(Duration::from_secs(20)).await;
+                    tokio::time::sleep(watchdog()).await;
+                    HUNG_STREAK.fetch_add(1, Ordering::SeqCst);
                     return "HUNG".to_string();
                 }
                 let c = tokio::net::TcpStream::connect(addr).await.unwrap();
                 keep.push(c);
-                let ok = tokio::time::timeout(Duration::from_secs(20), async {
+                let ok = tokio::time::timeout(watchdog(), async {
                     loop {
                         let done = if ev == "s" || ev == "b" {
                             let cs = conns.lock().unwrap();
@@ -515,10 +532,12 @@ fn run_accept(tokens: &[&str]) -> String {
                 })
                 .await;
                 if ok.is_err() {
+                    HUNG_STREAK.fetch_add(1, Ordering::SeqCst);
                     return "HUNG".to_string();
                 }
                 if ev.starts_with("e:") {
-                    tokio::time::sleep(Duration::from_secs(20)).await;
+                    tokio::time::sleep(watchdog()).await;
+                    HUNG_STREAK.fetch_add(1, Ordering::SeqCst);
                     return "HUNG".to_string();
                 }
             }
